@@ -64,6 +64,7 @@ fn main() -> ExitCode {
         Ok(ev) => {
             ev.write(&report);
             let n = report.finish();
+            drv::cleanup_scratch();
             println!(
                 "{} {}: {} new violation class(es), {} known-finding instance(s), {:.1}s",
                 id,
@@ -72,6 +73,10 @@ fn main() -> ExitCode {
                 report.known_count(),
                 report.start.elapsed().as_secs_f64()
             );
+            if report.nondeterministic.load(std::sync::atomic::Ordering::SeqCst) {
+                eprintln!("MACHINERY ERROR: a recorded history did not replay deterministically; no verdict");
+                return ExitCode::from(2);
+            }
             if n > 0 {
                 ExitCode::from(1)
             } else {
